@@ -64,9 +64,18 @@ def one(ctx: Ctx, cs, n_pairs=80):
         pairs = rng.sample(pairs, n_pairs)
     has_acc = any(c.kind == 'note' and c.obj.acc for r in ag for c in r)
     has_chord = any(c.kind == 'chord' for r in ag for c in r)
-    for name, up in pairs:
+    for k_, (name, up) in enumerate(pairs):
         direction = 'up' if up else 'down'
         case = {'case_seed': cs, 'text': x, 'interval': name, 'direction': direction}
+        if k_ % 4 == 0:
+            # a call that must be refused (unknown interval name / unknown direction) comes first: whatever it answers is only
+            # counted - the transposition that follows must not be affected by it
+            bad = [('P8', 'up'), ('M2', 'sideways'), ('', 'down'), ('m10', 'up'), ('octave ', 'up'), (None, 'up')][(k_ // 4 + cs) % 6]
+            try:
+                d.to_transposed(*bad)
+                ctx.mon('odd_transposition_calls_returned')
+            except Exception as ex0:  # noqa
+                ctx.mon(f'odd_transposition_calls_raised:{type(ex0).__name__}')
         ctx.ev()
         ctx.mon('transpositions')
         # what may happen, from the model
